@@ -122,6 +122,16 @@ fn main() { println("r", r(%d)); }`, d)
 fn b(n: int) -> int { if n == 0 { 0 } else { 1 + a(n - 1) } }
 fn main() { println("r", a(%d)); }`, d)
 	}},
+	// a long quiet phase before the limit is exceeded: the overshoot bound must not depend on how long
+	// (or how uneventfully) the program has been running
+	{name: "warmup-then-recursion", interp: true, depthOf: func(d int) int { return d + 1 }, gen: func(d int) string {
+		return fmt.Sprintf(`fn r(n: int) -> int { if n == 0 { 0 } else { 1 + r(n - 1) } }
+fn main() { let a = 0; for i in 0..9000 { a = (a + i) %% 7; } println("r", r(%d), a); }`, d)
+	}},
+	{name: "warmup-then-nest", gen: func(d int) string {
+		return fmt.Sprintf(`fn f() -> int { %s }
+fn main() { let a = 0; let i = 0; while i < 9000 { i = i + 1; a = (a + i) %% 5; } println("x", f(), a); }`, nest(d))
+	}},
 	{name: "loop-calls", leak: true, interp: true, depthOf: func(d int) int { return 4 }, gen: func(d int) string {
 		return fmt.Sprintf(`fn c3(x: int) -> int { let t = [x, x + 1]; t[0] + t[1] }
 fn c2(x: int) -> int { let y = c3(x); y + 1 }
@@ -470,7 +480,7 @@ func runC09(t *testing.T, spec RunSpec) *Verdict {
 	} else if k < peakK-slack {
 		zone = "exceeded"
 	}
-	res, rr, err := c09Exec(t, spec, f.source(spec, d), backend, limits, treeLimit, false)
+	res, rr, err := c09Exec(t, spec, f.source(spec, d), backend, limits, treeLimit, zone != "within" && backend == 0 && !f.multi && !f.multiWide)
 	if err != nil {
 		v.fail(P, "infra", "", "", err.Error())
 		return v
@@ -512,6 +522,18 @@ func runC09(t *testing.T, spec RunSpec) *Verdict {
 	default:
 		if rr.out.Kind != "completed" && rr.out.Kind != wantKind {
 			v.fail(P, "wrong-result", "band-result", tag+":"+rr.out.Kind, fmt.Sprintf("%s limit %d near peak %d: got %s (%s), expected completion or %s", kindName, k, peakK, rr.out.Kind, firstLine(rr.out.Msg), wantKind))
+			return v
+		}
+	}
+	// "after a bounded overshoot": however the run ended, the entry core never got further past the
+	// configured call-depth / operand-stack limit than the bound (the limits are polled between
+	// instruction cycles; the memory limit is checked at the allocation itself and has no overshoot
+	// other than the frame being allocated, which is not bounded by a constant)
+	if zone != "within" && backend == 0 && kind < 2 && !rr.unobservable && !f.multi && !f.multiWide {
+		got := []int{rr.peak.call, rr.peak.stack}[kind]
+		res.Probes["overshoot-measured"]++
+		if got > k+c09Slack {
+			v.fail(P, "wrong-result", "bounded-overshoot", cell+":"+kindName, fmt.Sprintf("%s limit %d: the core reached %d (%d past the limit; bound %d)", kindName, k, got, got-k, c09Slack))
 			return v
 		}
 	}
